@@ -77,6 +77,8 @@ def run(ck):
     ck.rule('R15.3', 'temp file in destination directory; content, permissions, then persist (rename) last')
     ck.rule('R15.4', 'each output is written only if its bytes differ from the existing file')
     ck.rule('R15.5', 'output names follow the file-name rules and pair with the right content')
+    ck.rule('R15.6', 'the type name of a document is the stem of the path it was asked for by, unchanged')
+    ck.rule('R15.7', 'outputs are written for successfully translated sources only (shared with C04)')
 
     gu = B.fn('generate_ui')
     guf = B.fn('generate_ui_file')
@@ -491,3 +493,120 @@ def run(ck):
                 if f['f'] == 'lowercase':
                     e = f['e']
                     ck.ob('R15.5', 'cli-lowercase-flag', e.get('k') == 'Unary' and e.get('op') == 'Not' and e['e'].get('k') == 'Field' and e['e'].get('f') == 'no_lowercase_file_name', B.loc(n), 'lowercase: %s' % pp(f['e']))
+
+    # ---- R15.6 from the path on the command line / in the directory to the type name the outputs are named after ----------------------
+    # (a) UiDocument::read: type_name = path.file_stem(), handed to parse() as it is
+    rd = L.fn('qmldoc::UiDocument::read')
+    if rd is None:
+        ck.floor('R15.6', 0, 1, 'fn UiDocument::read')
+    else:
+        ck.analysed(rd['path'])
+        pc = next((c for c in H.calls_in(rd['body']) if (H.callee(c) or H.callee_decl(c) or '').endswith('UiDocument::parse')), None)
+        ok = False
+        why = 'call of Self::parse(source, type_name, path) not found'
+        if pc is not None and len(pc['args']) >= 2:
+            chain = []
+            for o in H.origins(rd, pc['args'][1]):
+                x = H.strip_refs(o)
+                while x.get('k') == 'MCall':
+                    chain.append(x.get('m'))
+                    x = H.strip_refs(x['recv'])
+                root = x
+            other = [m for m in chain if m not in ('file_stem', 'ok_or_else', 'ok_or', 'to_owned', 'into', 'as_ref')]
+            p0 = {b['hid'] for b in H.pat_bindings(rd['params'][0])} if rd.get('params') else set()
+            let_of_param = False
+            rl = H.root_local(root) if chain else None
+            for _ in range(3):
+                if rl is None:
+                    break
+                if rl.get('hid') in p0:
+                    let_of_param = True
+                    break
+                b = H.binding_sites(rd).get(rl.get('hid'))
+                rl = H.root_local(b['node']['init']) if b and b['kind'] == 'let' and b['node'].get('init') is not None else None
+            ok = 'file_stem' in chain and not other and let_of_param
+            why = 'type name = path.file_stem() of the path parameter (chain %s)' % list(reversed(chain)) if ok else \
+                'the type name handed to parse() is derived through %s: it is no longer the file stem as written (output names and <class> follow it)' % (other or list(reversed(chain)))
+        ck.ob('R15.6', 'type-name-is-the-file-stem', ok, L.loc(pc) if pc else L.loc(rd['body']), why)
+        tn = L.fn('qmldoc::UiDocument::type_name')
+        v = [H.strip_refs(x) for x in H.return_exprs(tn['body'])] if tn else []
+        ck.ob('R15.6', 'type_name-returns-the-field', len(v) == 1 and v[0].get('k') == 'Field' and v[0].get('f') == 'type_name', L.loc(tn['body']) if tn else '', 'type_name() returns self.type_name')
+    # (b) the cache hands out, for a path, a document that was read under the same file name: its key keeps the file name
+    cache_fns = [f for f in L.fn_list if (f.get('impl_self') or '') == 'qmldoc::UiDocumentsCache' and f.get('x') is None]
+    n_key = 0
+    for f in cache_fns:
+        for c in H.calls_in(f['body']):
+            if not (c.get('k') == 'MCall' and c.get('m') in ('entry', 'get', 'get_mut', 'remove', 'insert', 'contains_key') and c['args']):
+                continue
+            r = H.strip_refs(c['recv'])
+            if not (r.get('k') == 'Field' and r.get('f') == 'docs'):
+                continue
+            n_key += 1
+            ck.analysed(f['path'])
+            key = c['args'][0]
+            # where the key is computed: here, or in a helper of the module
+            exprs = [(f, key)]
+            seen = set()
+            canon_bad, joins = [], 0
+            while exprs:
+                g, e = exprs.pop()
+                for o in [e] + list(H.origins(g, e)):
+                    for x in walk(o):
+                        if id(x) in seen or x.get('k') not in ('Call', 'MCall'):
+                            continue
+                        seen.add(id(x))
+                        t = H.callee(x) or H.callee_decl(x) or ''
+                        g2 = L.fn(t) if t.startswith('qmldoc::') else None
+                        if g2 is not None and g2 is not g and g2.get('body') is not None:
+                            for rv in H.return_exprs(g2['body']):
+                                exprs.append((g2, rv))
+                            continue
+                        if x.get('k') == 'MCall' and x.get('m', '').startswith('canonicalize'):
+                            src = H.origin_callees(g, x['recv'], through=('as_ref', 'to_owned', 'as_path'))
+                            rr = H.strip_refs(x['recv'])
+                            lit_dot = any(H.lit_value(a) == '.' for y in walk(rr) if y.get('k') == 'Call' for a in y['args'])
+                            if not (any(n_.endswith('parent') for n_ in src) or lit_dot):
+                                canon_bad.append(pp(x, maxlen=50))
+                        if x.get('k') == 'MCall' and x.get('m') == 'join' and x['args']:
+                            if any(n_.endswith('file_name') for n_ in H.origin_callees(g, x['args'][0], through=('as_ref', 'to_owned', 'ok_or_else', 'ok_or'))):
+                                joins += 1
+                    # a closure parameter of `.and_then(|p| self.docs.get(&p))` is what the adaptor's receiver yields
+                    rl = H.root_local(o) if o.get('k') in ('Path', 'AddrOf', 'Bind') or True else None
+                    bsite = H.binding_sites(g).get((rl or {}).get('hid')) if rl is not None else None
+                    if bsite and bsite['kind'] == 'closure_param' and id(bsite['node']) not in seen:
+                        seen.add(id(bsite['node']))
+                        ad = H.parents(g).get(id(bsite['node']))
+                        if ad is not None and ad.get('k') == 'MCall' and ad.get('m') in ('and_then', 'map', 'map_or', 'is_some_and', 'is_ok_and'):
+                            exprs.append((g, ad['recv']))
+            ok = not canon_bad
+            ck.ob('R15.6', 'cache-key-keeps-the-file-name|%s|%s' % (f['name'], c['m']), ok, L.loc(c),
+                  'the key resolves symbolic links in the directory part only (canonicalize on parent(); the file name is joined back)' if ok else
+                  'the cache key is the fully resolved path (%s): a symbolic link to a file of another name shares the entry of its target, and the document (type name, output names) '
+                  'of whichever was read first is handed out for both' % canon_bad[0], fn=f['path'])
+    ck.floor('R15.6', n_key, 3, 'accesses to the documents map')
+    # (c) documents are asked for by the path as given (command line, directory entry), not by a resolved one
+    n_rd = 0
+    for crate in (L, B):
+        for f in crate.fn_list:
+            if (f.get('impl_self') or '') == 'qmldoc::UiDocumentsCache':
+                continue
+            for c in H.calls_in(f['body']):
+                t = H.callee(c) or H.callee_decl(c) or ''
+                if not (t.endswith('UiDocumentsCache::read') or t.endswith('UiDocument::read')):
+                    continue
+                n_rd += 1
+                arg = H.call_args(c)[-1]
+                via = H.origin_callees(f, arg, through=None)
+                bad = sorted(x for x in via if x.split('::')[-1] in ('normalize_path', 'canonicalize', 'canonicalize_utf8', 'read_link', 'read_link_utf8'))
+                ck.ob('R15.6', 'read-by-the-path-as-given|%s' % short(f['path']), not bad, crate.loc(c),
+                      'read(%s): the path as given' % pp(arg, maxlen=40) if not bad else
+                      'the document is read through a resolved path (%s): for a symbolic link the type name becomes that of the link target' % bad[0], fn=f['path'])
+    ck.floor('R15.6', n_rd, 2, 'document reads')
+
+    # ---- R15.7 "for each successfully translated source": the gate in front of the writes and what it tests (C04 R4.4 / R4.6) ------------
+    import core as _core7
+    import rules.c04 as c04
+    s4 = _core7.Shared(ck, 'R15.7', lambda r, k: r == 'R4.6' or (r == 'R4.4' and (k.startswith('write-') or k in ('only-error-free-builds-continue', 'guard-tests-the-build-diagnostics', 'syntax-error-returns-err'))), 'C04:',
+                       ' [a source with an error must leave its outputs alone]')
+    c04.run(s4)
+    ck.floor('R15.7', s4.count, 8, 'shared C04 R4.4 / R4.6 obligations')
